@@ -17,11 +17,25 @@ func symxC01C() {
 	_, c0 := b.session("s0", "c0", "m", 30)
 	_, c1 := b.session("s1", "c1", "m", 30)
 	filters := [][]byte{[]byte("m/a"), []byte("m/+"), []byte("m/b")}
-	// which filter each session holds is symbolic
+	// which filter each session holds is symbolic; a subscription hosted by another node ("far",
+	// learned through gossip) and the one of the unregistered session s2 sit at solver-chosen
+	// positions of the match list
 	f0, f1, f2 := rt.Int("f0", 0, 2), rt.Int("f1", 0, 2), rt.Int("f2", 0, 2)
+	farFirst, ghostFirst := rt.Bool("remote_subscription_first"), rt.Bool("unregistered_session_first")
+	if farFirst {
+		symxGossipSub(b, "far", 2, "m/+", 0, 5)
+	}
+	if ghostFirst {
+		b.state.Subscriptions().Create("s2", filters[f2], 0)
+	}
 	b.state.Subscriptions().Create("s0", filters[f0], 0)
 	b.state.Subscriptions().Create("s1", filters[f1], 0)
-	b.state.Subscriptions().Create("s2", filters[f2], 0)
+	if !ghostFirst {
+		b.state.Subscriptions().Create("s2", filters[f2], 0)
+	}
+	if !farFirst {
+		symxGossipSub(b, "far", 2, "m/+", 0, 5)
+	}
 	second := rt.Bool("s0_second_filter")
 	if second {
 		b.state.Subscriptions().Create("s0", []byte("m/#"), 0)
